@@ -22,6 +22,7 @@ from dimod import (BinaryQuadraticModel as BQM, QuadraticModel as QM, Constraine
                    DiscreteQuadraticModel as DQM, BinaryPolynomial, SampleSet)
 
 from harness.common import lab, rat, run_driver
+from harness.props import accessors as ACC, cqm_history as HIST
 from harness.props.energy_common import (LABELS, Recipe, q8, F, fl, poly_value, rats, labs, rows_tok, introws_tok,
                                          adj_tok, qmb_tokens, domain, perm_of, dict_lit, encodings, run_child,
                                          exc_class, gen_bqm, gen_qm, edit_history)
@@ -438,6 +439,9 @@ def check_energies(ctx, r, B, R, target, site, labels_used, all_labels, dom, mir
     `oracle(t, row)` -> exact Fraction from reported coefficients."""
     t = R.ev(target)
     oracle = oracle or poly_value
+    if hasattr(t, 'iter_quadratic') and hasattr(t, 'get_quadratic') and r.random() < .5:
+        # every read accessor of the object reports the polynomial `oracle` reads through iter_linear / iter_quadratic
+        check_reads(ctx, R, target, site.replace('.energies', ''), degenerate or 'model as built or as an edit history left it')
     extras = [l for l in all_labels if l not in labels_used]
     if r.random() < .3:
         extras = extras + [l for l in LABELS if l not in all_labels][:1]
@@ -983,6 +987,98 @@ def case_stale_view(ctx, r, B):
                      repro=R.script(f'row = {row!r}\nassert F(v.energy(row)) == poly_value(v, row), (v.energy(row), poly_value(v, row))\n'))
 
 
+
+# ------------------------------------------------------------------------------------------ every read accessor, CQM histories
+
+def check_reads(ctx, R, target, site, ic, expect=None):
+    """every read accessor of `target` reports one polynomial (and, when an independent reference `expect` = (off, lin, quad) is
+    tracked, that one).  Returns the reference polynomial the positional path reports, or None."""
+    t = R.ev(target)
+    bad, ref = ACC.disagreements(t)
+    ctx.tick(f'{site}: read accessors compared')
+    ctx.case((site, 'reads', tuple(R.lines[4:]), target), nontrivial=len(t.variables) > 0)
+    if bad:
+        name, text = bad[0]
+        ctx.fail('property', site + ' read accessors', f'{ic}; accessor={name.split("(")[0].strip()}',
+                 f'{target}: {name}: {text}' + (f' (and {len(bad) - 1} more accessors)' if len(bad) > 1 else ''),
+                 repro=R.script(ACC.repro_src(target)), detail=dict(all=[f'{n}: {x}' for n, x in bad[:8]]))
+        return None
+    if expect is not None and ref != expect:
+        ctx.fail('property', site + ' read accessors', f'{ic}; against the coefficients written',
+                 f'{target}: every accessor reports {ACC.show(ref)} but the operations applied give {ACC.show(expect)}',
+                 repro=R.script(ACC.repro_src(target) + f'assert ref == {expect!r}, (ref, "written", {expect!r})\n'))
+        return None
+    return ref
+
+
+def case_cqm_history(ctx, r, B):
+    """one CQM, expressions in private variable orders, 1-5 in-place operations; after every step every expression: all read
+    accessors give one polynomial, it is the one the operations applied define, and energies is its value"""
+    R = Recipe()
+    st = HIST.build(r, R)
+    nsteps = r.randint(1, 5)
+    what, facts = 'fresh model', {}
+    for k in range(nsteps + 1):
+        c = R['c']
+        mv = list(c.variables)
+        vts = st['vts']
+        for target in st['targets']:
+            site = 'CQM.objective' if target == 'c.objective' else 'CQM.constraint.lhs'
+            style = st['styles'][target]
+            ic = f'after {what}; expression written in {style} order' + ''.join(f'; {f}' for f, on in sorted(facts.items()) if on)
+            ctx.tick(f'history: {what}' + ''.join(f'; {f}' for f, on in sorted(facts.items()) if on))
+            refx = st['refs'][target]
+            t = R.ev(target)
+            ev = list(t.variables)
+            if sorted(map(repr, ev)) != sorted(map(repr, refx.vars)):
+                ctx.fail('property', site + ' read accessors', f'{ic}; variables', f'{target}.variables = {ev} but the operations applied leave {refx.vars}',
+                         repro=R.script(f'assert sorted(map(repr, {target}.variables)) == {sorted(map(repr, refx.vars))!r}, list({target}.variables)\n'))
+                return
+            ref = check_reads(ctx, R, target, site, ic, expect=refx.poly())
+            if ref is None:
+                return
+            # energies = the value of that polynomial, dict rows and a labelled array in shuffled column order
+            rows = [{l: r.choice(domain(vts[l])) for l in mv} for _ in range(2)]
+            if not all(exact_in_double(t, row) for row in rows):
+                continue
+            expect = [refx.value(row) for row in rows]
+            perm = perm_of(r, mv)
+            for name, enc_expr in (('dicts', '[' + ', '.join(dict_lit(row, perm_of(r, mv)) for row in rows) + ']'),
+                                   ('array+labels', f'(np.array({[[float(row[l]) for l in perm] for row in rows]!r}).reshape(2, {len(perm)}), {perm!r})')):
+                ctx.tick(f'{site}.energies (history):{name}')
+                ctx.case((site, 'history', tuple(R.lines[4:]), target, enc_expr), nontrivial=bool(ev))
+                repro = R.script(ACC.repro_src(target) + textwrap.dedent(f'''
+                    got = [F(e) for e in t.energies({enc_expr})]
+                    exp = [value(ref, row) for row in {rows!r}]
+                    assert got == exp, ('energies', got, 'polynomial of the reported coefficients', exp)
+                    '''))
+                try:
+                    got = [F(e) for e in t.energies(R.ev(enc_expr))]
+                except Exception as e:  # noqa
+                    ctx.fail('property', site + '.energies', ic, f'{type(e).__name__}: {e} for samples that assign every variable of the model', repro=repro)
+                    return
+                if got != expect:
+                    ctx.fail('property', site + '.energies', f'{ic}; encoding={name}', f'energies {list(map(str, got))} but the polynomial every accessor '
+                             f'reports gives {list(map(str, expect))}', repro=repro, detail=dict(encoding=enc_expr))
+                    return
+                if name == 'dicts':
+                    d_rows, d_labels = real_as_samples(R.ev(enc_expr))
+                    order = list(t.variables)
+                    l, a, o = qmb_tokens(t, order=order, r=r)
+                    vars_tok = ','.join(str(c.variables.index(v)) for v in order) or '-'
+                    B.add(f'exprenergies {vars_tok}|{l}|{a}|{o} {labs(c.variables)} {rows_tok(d_rows)} {labs(d_labels)}', enc_energies(got), site + '.energies', ic,
+                          f'{target}.energies({enc_expr})', detail=dict(model=R.lines[4:]))
+        if k == nsteps:
+            break
+        res = None
+        for _ in range(6):
+            res = HIST.step(r, R, st)
+            if res is not None:
+                break
+        if res is None:
+            break
+        what, facts = res
+
 # ------------------------------------------------------------------------------------------ label -> column resolution
 
 def vstate_tok(v):
@@ -1343,7 +1439,7 @@ def run(ctx):
                 'model has variables and the call evaluates at least one row; distinct by (construction script, target, encoding)')
     for i in range(n):
         kind = r.choice(['bqm', 'bqm', 'qm', 'qm', 'cqm', 'cqm', 'cqm', 'dqm', 'poly', 'as', 'as', 'as', 'wide', 'wide', 'stale', 'stale', 'range', 'range',
-                         'cqmrange', 'cqmrange', 'boundary', 'boundary', 'asforms', 'asforms'])
+                         'cqmrange', 'cqmrange', 'boundary', 'boundary', 'asforms', 'asforms', 'cqmhist', 'cqmhist', 'cqmhist'])
         ctx.tick('model:' + kind)
         if kind == 'bqm':
             case_bqm(ctx, r, B)
@@ -1367,6 +1463,8 @@ def run(ctx):
             case_dtype_boundary(ctx, r, B)
         elif kind == 'asforms':
             check_as_samples_forms(ctx, r, B)
+        elif kind == 'cqmhist':
+            case_cqm_history(ctx, r, B)
         else:
             check_as_samples(ctx, r, B)
         if len([f for f in ctx.failures if f['kind'] == 'property']) >= 12:
